@@ -45,7 +45,10 @@ def stepWorld (cas obs : String) : String :=
     | none => "bad-case\tok\tbad"
     | some c =>
       let rs := runRounds c.h rounds.toNat! 0 c.i c.plan
-      let model := s!"n={rs.length} " ++ " ".intercalate ((rs.zipIdx).map (fun (r, k) => showRound (k + 1) r))
+      -- a crash (the process dies at an API call of round 1) is not predicted by the model: such cases are judged by the
+      -- monitors only, the model observation is the implementation's
+      let crashed := (line.splitOn "@crash").length > 1
+      let model := if crashed then obs else s!"n={rs.length} " ++ " ".intercalate ((rs.zipIdx).map (fun (r, k) => showRound (k + 1) r))
       let irs := ((obs.splitOn " ").filter (fun t => t.startsWith "s")).filterMap (parseRound c.i.setName)
       let v := verdict [
         ("C02.converges", C02converges c.h c.i irs),
@@ -54,7 +57,7 @@ def stepWorld (cas obs : String) : String :=
         ("C09.recovers", c.plan.isEmpty || C02converges c.h c.i irs),
         ("C15.nopanic", irs.all (·.out != "panic"))]
       let tag := if !wfWorld c.h c.i then "outside-premises" else
-        (if c.plan.isEmpty then "wf" else "wf+faulted") ++ s!".rounds{if rs.length ≤ 3 then "1-3" else if rs.length ≤ 6 then "4-6" else if rs.length ≤ 10 then "7-10" else "11+"}"
+        (if c.plan.isEmpty then "wf" else if crashed then "wf+crash" else "wf+faulted") ++ s!".rounds{if rs.length ≤ 3 then "1-3" else if rs.length ≤ 6 then "4-6" else if rs.length ≤ 10 then "7-10" else "11+"}"
       s!"{model}\t{v}\t{tag}"
   | _ => "bad-case\tok\tbad"
 
